@@ -31,6 +31,7 @@ access(all) fun main(): [String] {
             out.append(p.toString().concat("=?"))
         }
     }
+    out.append("/storage/p100=".concat(C.showSelf()))
     return out
 }
 `
